@@ -116,7 +116,10 @@ def clear_violations(prop):
     if os.path.isdir(d):
         for f in os.listdir(d):
             if f.startswith('v') and f.endswith('.json'):
-                os.remove(os.path.join(d, f))
+                try:
+                    os.remove(os.path.join(d, f))
+                except OSError:
+                    pass        # another run of the same property removed it first
 
 
 def write_evidence(prop, tier, seed, ctx: Ctx, explanation, wall_s, violations, known_count, extra_cov=None,
